@@ -5,6 +5,11 @@ import os
 VERIF = os.path.dirname(os.path.dirname(os.path.abspath(__file__)))
 
 CHECKS = {
+    "C14": dict(
+        text="Theorems (Coq, every clock oracle = every point at which the deadline can be observed, every program without aggregates, every accepted plan, every input): whatever run_timeout returns, the program value holds the input rows in place and only derivable tuples (below every closed superset of the input), each added once; `true` means the least model; calling run() afterwards — or run_timeout again, any number of times — completes to the least model of the ORIGINAL input; a clock that never fires makes run_timeout equal run. Tie: programs compiled with #![generate_run_timeout] under the hook's virtual clock (run_timeout(k s) fires exactly at its k-th deadline check): all k, pairs and triples of interruptions, each followed by run(); implementation = model (returned flag and rows after every call) and every state checked against the specification.",
+        note="Trusted: as C01 plus the virtual-clock hook (feature verif_hooks) standing in for web_time::Instant. PARTIAL: aggregation / lattices are in the tie but not in the theorems; wall-clock behaviour of the real Instant is not modelled (it only selects which check fires).",
+        technique="Coq proof (loop invariant at every exit + least-model interpolation) + correspondence under a deterministic virtual clock",
+        ref="5/C14"),
     "C16": dict(
         text="Theorems (Coq, by induction on the syntax of the shipped lattice types: all nestings, tuple/Product arities >= 1, array lengths, integer ranges, bounds, Ord element types): partial_cmp is a partial order, join = least upper bound, meet = greatest lower bound, hence commutative / associative / idempotent / absorbing and a <= b iff join = b iff meet = a; join_mut / meet_mut equal join / meet and the changed flag is exact; Dual and Reverse swap the operations; top / bottom extremal. The Gallina mirror of every impl is tied to ascent_base by differential runs on 73 concrete Rust types (exhaustive pairs / triples over small carriers) — that half is testing.",
         note="Trusted: Coq kernel + VM; the hand-written mirror Lattice/LatModel.v (tied, not verified); ds_lat and gen/props/c16.py renderers / law oracle; Rust std (BTreeSet, derived Option / tuple orders, Ord::min / max, Rc / Arc glue); integers as Z restricted to a range.",
@@ -74,14 +79,14 @@ def main():
         engines=[dict(name="coq", path="coq/", serves_properties=sorted(CHECKS), kind_free_text="Coq 8.16.1 development: executable Gallina models + theorems; property files coq/Props/Cxx.v"),
                  dict(name="ds_driver", path="harness/ds_driver", serves_properties=[i for i in sorted(CHECKS) if i in ("C17",)], kind_free_text="Rust driver running case tables against the real aggregators of /repo"),
                  dict(name="ds_index / ds_lat / ds_uf", path="harness/", serves_properties=[i for i in sorted(CHECKS) if i in ("C16", "C18", "C19")], kind_free_text="Rust drivers running operation histories against the real index types, lattices and union-find structures"),
-                 dict(name="FRONT", path="/repo/ascent_macro/src/verif_hook.rs", serves_properties=[i for i in sorted(CHECKS) if i in ("C01", "C04", "C05", "C06", "C13")], kind_free_text="in-process front-end driver (cargo feature verif_hooks): runs the real ascent_impl passes on program texts and dumps the MIR plan"),
-                 dict(name="PROG", path="gen/prog.py", serves_properties=[i for i in sorted(CHECKS) if i in ("C01", "C04", "C05", "C06", "C13")], kind_free_text="generated crates of ascent programs compiled by rustc against /repo and run on embedded inputs / histories")],
+                 dict(name="FRONT", path="/repo/ascent_macro/src/verif_hook.rs", serves_properties=[i for i in sorted(CHECKS) if i in ("C01", "C02", "C04", "C05", "C06", "C13", "C14")], kind_free_text="in-process front-end driver (cargo feature verif_hooks): runs the real ascent_impl passes on program texts and dumps the MIR plan"),
+                 dict(name="PROG", path="gen/prog.py", serves_properties=[i for i in sorted(CHECKS) if i in ("C01", "C02", "C04", "C05", "C06", "C13", "C14")], kind_free_text="generated crates of ascent programs compiled by rustc against /repo and run on embedded inputs / histories")],
         checks=checks, not_applicable=na,
         notes="Every check = (1) rebuild + audit of the Coq property file (Print Assumptions, forbidden vernacular, obligations==discharged) and (2) correspondence of the executable model with the implementation rebuilt from /repo's working tree. See DESIGN.md.")
     open(os.path.join(VERIF, "MANIFEST.json"), "w").write(json.dumps(man, indent=1) + "\n")
 
 
-HOOK_COMMITS = ["33cd3e7"]
+HOOK_COMMITS = ["33cd3e7", "a76ee5e", "25e0b2b", "56580ad"]
 
 if __name__ == "__main__":
     main()
